@@ -218,6 +218,25 @@ func (s *Scanner) Scan() (Token, error) {
 	}
 
 	ch := s.next()
+
+	// Comments are skipped in a loop. Calling Scan again for the token after
+	// each comment made the depth of the Go stack proportional to the number
+	// of consecutive comments in the input.
+	for {
+		if s.isCommentRune(ch) {
+			s.scanComment()
+		} else if s.isLineCommentRune(ch) {
+			s.scanLineComment()
+		} else {
+			break
+		}
+
+		for unicode.IsSpace(s.peek()) {
+			s.next()
+		}
+		ch = s.next()
+	}
+
 	token := ch
 	literal := string(ch)
 	quoted := false
@@ -342,12 +361,6 @@ func (s *Scanner) Scan() (Token, error) {
 		s.scanExternalCommand()
 		literal = s.literal.String()
 		token = EXTERNAL_COMMAND
-	case s.isCommentRune(ch):
-		s.scanComment()
-		return s.Scan()
-	case s.isLineCommentRune(ch):
-		s.scanLineComment()
-		return s.Scan()
 	default:
 		if ch == '\'' || (!s.ansiQuotes && ch == '"') {
 			err = s.scanString(ch)
